@@ -11,7 +11,7 @@ from lib import Case
 
 PROP = "C12"
 DRIVER = "drv-c12"
-PROOF_MODULES = ["TetlProofs.C12.Props", "TetlProofs.C12.PropsExt", "TetlProofs.C12.GenProps"]
+PROOF_MODULES = ["TetlProofs.C12.Props", "TetlProofs.C12.PropsExt", "TetlProofs.C12.PropsMixed", "TetlProofs.C12.GenProps"]
 HARNESS = "harness/c12.cpp"
 HARNESS_FLAGS = ["-g0", "-Wno-unused-function"]
 SOURCES = ["include/etl/_chrono/duration.hpp", "include/etl/_chrono/duration_cast.hpp", "include/etl/_chrono/floor.hpp",
@@ -26,8 +26,14 @@ RULE = ("integer representations (int64 x int64): every ordered pair of the ten 
         "products and exact result are representable (the same predicate as the hypotheses of the Lean theorems, evaluated with "
         "exact Python integers; floor / ceil: c * CF::num in intmax_t, the argument in the common type of the comparison, the exact "
         "result - the hypotheses of floor_eq_of_result / ceil_eq_of_result); int32 and mixed int32/int64 representations for the "
-        "periods {milli, 60, 1001/30000}; int16 x int16, uint32 x uint32, int64 -> int16, uint32 x int32 on the same periods "
-        "(all of int16's and uint32's boundary values, every function incl. the one-type operations on all twelve periods); "
+        "periods {milli, 60, 1001/30000}; int16 x int16, uint32 x uint32, int64 x int16, uint32 x int32, int64 x uint32, uint32 x int64, "
+        "int16 x int64, int32 x uint32, int16 x int32, int32 x int16 on the same periods "
+        "(all of int16's and uint32's boundary values, every function incl. the one-type operations on all twelve periods; "
+        "for + - / % the comparisons, time_point (+ -) duration, time_point - time_point and the compound assignments += -= %= "
+        "with a duration of the OTHER type, second operands 1, 3, 5, 1000, -7, -1 resp. 7, 2^31, 2^32 - 5, the least and the "
+        "greatest value of the second representation and a seeded one: an unsigned or most-negative second operand next to a "
+        "wider common type; a difference is inside the domain when the two converted operands and the DIFFERENCE are "
+        "representable - the sum need not be); "
         "single evaluations of the two known-finding classes (c * CF::num outside intmax_t with a representable result: the "
         "harness process ends with a UBSan report; floor / ceil / round on int32 x int32 around the count where the argument "
         "leaves the 32-bit common type, std column masked); two "
@@ -36,7 +42,8 @@ RULE = ("integer representations (int64 x int64): every ordered pair of the ten 
         "and seeded random magnitudes, compared bit for bit.  time_point: the same functions through "
         "time_point_cast / floor / ceil / round / comparisons / += / -= / ++ / --, and time_point + duration, duration + "
         "time_point, time_point - duration, time_point - time_point on 36 ordered pairs of int64 periods (ring of first "
-        "counts x fixed, seeded and large second counts, result in the common period) and on the int32 / mixed pairs.  "
+        "counts x fixed, seeded and large second counts incl. int64 min, min + 1, max; result in the common period) and on the "
+        "int32 / mixed / narrow / unsigned pairs (second counts incl. the least and greatest value of the representation).  "
         "duration * rep, rep * duration, duration / rep, duration % rep: every period x duration representation int32/int64 x "
         "scalar type int32/int64 (mixed pairs: the result has the wider representation) x counts x fixed, seeded and large "
         "scalars, restricted to representable products and to divisors other than 0 and min / -1; double x double.  A line carries up to 64 evaluations.  "
@@ -71,7 +78,9 @@ PER = [(1, 10 ** 9), (1, 10 ** 6), (1, 1000), (1, 1), (60, 1), (3600, 1), (86400
 PQ = [Fraction(n, d) for n, d in PER]
 REPS = {"i16": (16, True), "i32": (32, True), "i64": (64, True), "u32": (32, False)}      # (width, signed)
 I64 = (64, True)
-NARROW = (("i16", "i16"), ("u32", "u32"), ("i64", "i16"), ("u32", "i32"))                # harness rc 7..10
+NARROW = (("i16", "i16"), ("u32", "u32"), ("i64", "i16"), ("u32", "i32"),                # harness rc 7..10
+          # rc 11..16: an unsigned / narrow operand next to a wider one (the common type differs from an operand's type)
+          ("i64", "u32"), ("u32", "i64"), ("i16", "i64"), ("i32", "u32"), ("i16", "i32"), ("i32", "i16"))
 SUB = (2, 4, 9)
 TPSET = (0, 2, 3, 4, 7, 9)
 CHUNK = 64
@@ -93,7 +102,7 @@ def enabled(r1, r2, k1, k2):
 
 def tp_enabled(r1, r2, k1, k2):
     if (r1, r2) in NARROW:
-        return False
+        return k1 in SUB and k2 in SUB
     if (r1, r2) == ("i64", "i64"):
         return (k1 in TPSET and k2 in TPSET) or k1 >= 10 or k2 >= 10
     if (r1, r2) == ("f64", "f64") or "f64" not in (r1, r2):
@@ -246,9 +255,25 @@ def dom2(op, r1, k1, r2, k2, a, b=0):
             if c is None or not fits(c[0], c[1] - c[2]) or not fits(c[0], c[2] - c[1]):
                 return False
         return fits(REPS[r2], low + 2)
-    if op in ("add", "sub", "plus", "minus", "diff"):
+    if op in ("add", "plus"):
+        # add_exact_builtin / tpPlus_exact_builtin: both operands converted to the common type FIRST, then the exact sum
         c = both_common(r1, k1, r2, k2, a, b)
-        return c is not None and fits(c[0], c[1] + c[2]) and fits(c[0], c[1] - c[2])
+        return c is not None and fits(c[0], c[1] + c[2])
+    if op in ("sub", "minus", "diff"):
+        # only the DIFFERENCE has to be representable: time_point<minutes>{-1} - minutes{INT32_MIN} is inside
+        c = both_common(r1, k1, r2, k2, a, b)
+        return c is not None and fits(c[0], c[1] - c[2])
+    if op in ("adda2", "moda2"):
+        # D1 x{a}; x += D2{b} / x -= D2{b} / x %= D2{b}: D2{b} is converted to D1 by the implicit converting constructor
+        n, d = CF[k2][k1]
+        if d != 1:
+            return fits(REPS[r1], a)            # does not convert implicitly: `n/a` on all sides
+        e = b * n
+        if not (fits(REPS[r1], a) and fits(REPS[r2], b) and fits(I64, e) and fits(REPS[r1], e)):
+            return False
+        if op == "moda2":
+            return e != 0 and not (a == rmin(REPS[r1]) and e == -1)
+        return fits(REPS[r1], a + e) and fits(REPS[r1], a - e)
     if op in ("div", "mod"):
         c = both_common(r1, k1, r2, k2, a, b)
         return c is not None and c[2] != 0 and not (c[1] == rmin(c[0]) and c[2] == -1)
@@ -283,8 +308,10 @@ def dom1(op, r, a, b, rs=None):
         return True
     if op in ("inc", "dec"):
         return fits(w, a + 2) and fits(w, a - 2)
-    if op in ("adda", "suba"):
-        return fits(w, b) and fits(w, a + b) and fits(w, a - b)
+    if op == "adda":
+        return fits(w, b) and fits(w, a + b)
+    if op == "suba":
+        return fits(w, b) and fits(w, a - b)        # x -= min is inside for x < 0: only the difference has to be representable
     if op == "mula":
         return fits(w, b) and fits(w, a * b)
     if op in ("diva", "moda", "modad"):
@@ -301,6 +328,8 @@ OPS_BIN = ["add", "sub", "div", "mod", "cmp", "common"]
 OPS_TP2 = ["tp_cast", "tp_floor", "tp_ceil", "tp_round", "tp_cmp", "tp_conv"]
 OPS_ONE = ["abs", "neg", "pos", "inc", "dec", "adda", "suba", "mula", "diva", "moda", "modad", "tp_adda", "tp_suba", "tp_inc"]
 OPS_TPD = ["tp_plus", "tp_minus", "tp_diff"]          # [time.point.nonmember]
+EDGE_B = ("adda", "suba", "tp_adda", "tp_suba")       # second operand also the least / greatest value of the representation
+OPS_ASSIGN2 = ["adda2", "moda2", "tp_adda2"]           # compound assignment with a duration of another type
 OPS_SCALAR = ["mul", "divr", "modr"]                   # [time.duration.nonmember]: duration and a tick count
 
 
@@ -318,6 +347,7 @@ def big_counts(rnd, n):
         v = rnd.getrandbits(bits)
         vs.add(v)
         vs.add(-v)
+    vs.add(I64MIN)
     return sorted(v for v in vs if fits(64, v))
 
 
@@ -372,6 +402,9 @@ def generate(tier, seed):
                     emit(op, "i64", k1, "i64", k2, av if wide else ring, b)
                 emit(op, "i64", k1, "i64", k2, big, rnd.choice(bs_fixed))
                 emit(op, "i64", k1, "i64", k2, big, rnd.choice(big))
+                if op in ("add", "sub", "cmp"):
+                    for b in (I64MIN, I64MAX):
+                        emit(op, "i64", k1, "i64", k2, ring + big[::3], b)
             add("ctype r1=i64 p1=%d r2=i64 p2=%d a=0" % (k1, k2), "ctype/i64,i64")
             if tp_enabled("i64", "i64", k1, k2):
                 for op in OPS_TP2:
@@ -380,6 +413,11 @@ def generate(tier, seed):
                     for b in (bs_fixed if thorough else [-7, 3]) + [rnd.randint(-2000, 2000), rnd.choice(big)]:
                         emit(op, "i64", k1, "i64", k2, (small if (thorough and b == 3) else ring) + big[::3], b)
                     emit(op, "i64", k1, "i64", k2, big, rnd.choice(big))
+                    for b in (I64MIN, I64MIN + 1, I64MAX):     # the most negative second operand: x - min is representable for x < 0
+                        emit(op, "i64", k1, "i64", k2, ring + big, b)
+                for op in OPS_ASSIGN2:
+                    for b in [-7, 3, rnd.choice(big)]:
+                        emit(op, "i64", k1, "i64", k2, ring + big[::3], b)
 
     # ---- int32 and mixed representations
     i32big = sorted({(1 << 31) - 1 - k for k in range(4)} | {-(1 << 31) + k for k in range(4)}
@@ -393,8 +431,15 @@ def generate(tier, seed):
                 for op in OPS_BIN:
                     for b in bs_fixed + [rnd.choice(i32big)]:
                         emit(op, r1, k1, r2, k2, ring + a_big, b)
-                for op in OPS_TPD:
-                    for b in bs_fixed + [rnd.choice(i32big)]:
+                b_edge = [rmin(REPS[r2]), rmin(REPS[r2]) + 1, rmax(REPS[r2])]
+                for op in OPS_TPD + ["tp_cmp"]:
+                    for b in bs_fixed + [rnd.choice(i32big)] + b_edge:
+                        emit(op, r1, k1, r2, k2, ring + a_big, b)
+                for op in ("add", "sub", "cmp"):
+                    for b in b_edge:
+                        emit(op, r1, k1, r2, k2, ring + a_big, b)
+                for op in OPS_ASSIGN2:
+                    for b in [-7, 3, rnd.choice(i32big)] + b_edge[:1]:
                         emit(op, r1, k1, r2, k2, ring + a_big, b)
                 add("ctype r1=%s p1=%d r2=%s p2=%d a=0" % (r1, k1, r2, k2), "ctype/%s,%s" % (r1, r2))
 
@@ -410,8 +455,23 @@ def generate(tier, seed):
             for k2 in SUB:
                 for op in OPS_CAST + ["conv"]:
                     emit(op, r1, k1, r2, k2, nvals[r1])
+                # second operands: small ones of both signs, the least and the greatest value of r2 (for a signed r2 the value whose
+                # negation is not representable, for an unsigned r2 values whose negation in r2 wraps), values above the signed range
+                t2 = REPS[r2]
+                bs = [1, 3, 5, 1000] + ([-7, -1] if t2[1] else [7, (1 << 31), (1 << 32) - 5])
+                bs += [rmin(t2), rmin(t2) + 1, rmax(t2), rnd.choice(nvals[r2])]
+                bs = sorted(set(bs))
                 for op in OPS_BIN:
-                    for b in [1, 3] + ([-7, -1] if REPS[r2][1] else [7]) + [rnd.choice(nvals[r2])]:
+                    for b in (bs if op in ("add", "sub", "cmp") or thorough else bs[:4] + bs[-1:]):
+                        emit(op, r1, k1, r2, k2, nvals[r1], b)
+                # time_point<D1> (+ -) D2, time_point<D1> - time_point<D2>, comparisons, time_point casts: mixed representations
+                for op in OPS_TPD + ["tp_cmp"]:
+                    for b in bs:
+                        emit(op, r1, k1, r2, k2, nvals[r1], b)
+                for op in ["tp_cast", "tp_floor", "tp_ceil", "tp_round", "tp_conv"]:
+                    emit(op, r1, k1, r2, k2, nvals[r1], 5)
+                for op in OPS_ASSIGN2:
+                    for b in (bs if thorough else bs[:6] + bs[-2:]):
                         emit(op, r1, k1, r2, k2, nvals[r1], b)
                 add("ctype r1=%s p1=%d r2=%s p2=%d a=0" % (r1, k1, r2, k2), "ctype/%s,%s" % (r1, r2))
 
@@ -442,7 +502,8 @@ def generate(tier, seed):
             for op in OPS_ONE:
                 if op == "abs" and not REPS[r1][1]:
                     continue                     # abs participates only for a signed representation
-                for b in ([0] if op in ("abs", "neg", "pos", "inc", "dec", "tp_inc") else [1, 3, 7, rnd.choice(nvals[r1])] + ([-7, -1] if REPS[r1][1] else [])):
+                for b in ([0] if op in ("abs", "neg", "pos", "inc", "dec", "tp_inc") else [1, 3, 7, rnd.choice(nvals[r1])] + ([-7, -1] if REPS[r1][1] else [])
+                          + ([rmin(REPS[r1]), rmax(REPS[r1])] if op in EDGE_B else [])):
                     emit(op, r1, k1, None, None, nvals[r1], b)
             for rs in ("i32", "i64"):
                 for op in OPS_SCALAR:
@@ -453,7 +514,8 @@ def generate(tier, seed):
         a_big = i32big if r1 == "i32" else big
         for k1 in range(12):
             for op in OPS_ONE:
-                for b in ([0] if op in ("abs", "neg", "pos", "inc", "dec", "tp_inc") else [-7, -1, 1, 3, rnd.choice(a_big)]):
+                for b in ([0] if op in ("abs", "neg", "pos", "inc", "dec", "tp_inc") else [-7, -1, 1, 3, rnd.choice(a_big)]
+                          + ([rmin(REPS[r1]), rmax(REPS[r1])] if op in EDGE_B else [])):
                     emit(op, r1, k1, None, None, ring + a_big, b)
             # duration<r1> (* / %) scalar of type rs, incl. the mixed pairs (the result has the wider representation)
             for rs in ("i32", "i64"):
@@ -630,7 +692,7 @@ def run(ctx, replay=None):
 CLAIMED = True
 TECHNIQUE = ("Lean 4 proof: hand model of ratio / ratio_divide / common_type / the four duration_cast bodies / converting "
              "constructor / operators (incl. duration and tick count, time_point and duration) / floor / ceil / round / abs / "
-             "the time_point members and casts / zero, min, max / the named aliases "
+             "the time_point members and casts / compound assignment with a duration of another type / zero, min, max / the named aliases "
              "(C++ integer types, overflow = error) = exact rational (Q) "
              "semantics for all periods and counts in the documented domain; model tied to the code by an exhaustive-box + "
              "boundary + seeded correspondence run against the implementation and libstdc++; the four duration_cast_impl::cast "
@@ -658,6 +720,20 @@ LEVEL_TEXT = ("Proved in Lean 4, for every pair of periods with positive numerat
               "time_point - duration, time_point - time_point, abs, unary plus: signed 32..64-bit representations, operands "
               "representable in the common type, exact result representable; unary minus and += -= *= ++ -- (duration and "
               "time_point) also on int8/int16/uint8/uint16/uint32; /= %=. "
+              "(3b) MIXED representations: the conversion to the common type, + - / % of two durations, == != < <= > >= of "
+              "durations and of time_points, time_point + duration, duration + time_point, time_point - duration, time_point - "
+              "time_point for EVERY ordered pair of the representations int8..int64, uint8..uint32 (49 pairs, `_builtin` theorems): "
+              "both operands are converted to the common type first ([time.duration.nonmember], [time.point.nonmember]) and the "
+              "result is the exact sum / difference / quotient / remainder / comparison, under exactly 'both converted operands "
+              "and the exact result are values of the common representation' - a difference does not need the negated second "
+              "operand to be representable in ITS representation (tpMinus_ne_plus_neg_counterexample: lhs + (-rhs) differs for "
+              "an unsigned rhs narrower than the common type, for the most negative signed rhs and for int16 min); "
+              "+= -= %= of a duration and += -= of a time_point with a duration of another type (converted first by the "
+              "implicit constructor, assign2_eq); floor / ceil / round / abs and duration * rep, rep * duration, duration / rep, "
+              "duration % rep on the same representations (floor_eq_builtin, floor_eq_of_result_builtin, ceil_eq_builtin, ceil_eq_of_result_builtin, round_eq_builtin, abs_eq_builtin, "
+              "mulRep_/divRep_/modRep_exact_builtin: hypotheses as in (2) / (3), every intermediate representable; for the scalar "
+              "operators both operands must be values of common_type_t<Rep1, Rep2>, i.e. no negative operand next to an unsigned "
+              "common type). "
               "(4) zero / min / max of duration and time_point are 0 and the least / greatest value of the representation; the ten "
               "named aliases nanoseconds..years have the periods of [time.syn] and signed representations of at least the required "
               "width (complete check). "
@@ -666,8 +742,8 @@ LEVEL_TEXT = ("Proved in Lean 4, for every pair of periods with positive numerat
               "harness' integer representations and proved equal to the model's castCore for every count and every conversion "
               "factor, their undefined-behaviour obligations (product in intmax_t, divisor non-zero, not min / -1) being exactly "
               "'castCore returns a value'. "
-              "Every operation on floating-point representations, and floor / ceil / round / the binary operators on int16 and "
-              "uint32 representations, are compared differentially only. The model is tied to the current source on every run "
+              "Every operation on floating-point representations is compared differentially only; the time_point forms of floor / "
+              "ceil / round on int16 and uint32 representations are the duration functions by definition of the model. The model is tied to the current source on every run "
               "by running model, implementation, Lean spec and libstdc++ on the same inputs under ASan/UBSan: all 100 ordered "
               "period pairs x all counts in [-2000, 2000] for the four casts (int64), boundary values around 2^31 and 2^62, int32, "
               "int16, uint32 and mixed representations, periods not in lowest terms, double representations bit for bit, the same "
@@ -678,7 +754,8 @@ LEVEL_NOTE = ("Trusted: Lean kernel + propext/Classical.choice/Quot.sound; the h
               "time_since_epoch(), and tpCast/tpFloor/.../tpEq... of the model are by definition the duration functions the source "
               "forwards to); the C14 gcd/lcm model; g++-12/ASan/UBSan; libstdc++ std::chrono as oracle for spec validation. The "
               "hypotheses of the theorems are decidable predicates (RepOk, Builtin, PerOk, DivOk, CommonOk, CastTyOkB, CastIn, "
-              "PairIn, RoundIn, ScalarTyOk, MulIn, DivIn) that the generator evaluates with exact integers. "
+              "PairIn, PairTyOkB, RoundIn, RoundTyOkB, ScalarTyOk, ScalarTyOkB, MulIn, MulInB, DivIn, DivInB) that the generator evaluates "
+              "with exact integers. "
               "DEVIATION from the property text ('every tick count whose exact result is representable'), now exact: "
               "duration_cast meets the wording except on the class {CF::num != 1, CF::den != 1, c * CF::num outside intmax_t} "
               "(example: duration_cast<duration<int64, ratio<1,3>>>(duration<int64, ratio<5,7>>{2^60}); the review's example 2^62 "
@@ -694,32 +771,36 @@ LEVEL_NOTE = ("Trusted: Lean kernel + propext/Classical.choice/Quot.sound; the h
               "were added to tetl by two fix commits (fixed findings); if one of them is not declared the harness prints "
               "`missing`, which is a violation.")
 # members modelled and compared on every run but without a Lean theorem yet
-CORRESPONDENCE_ONLY = ["floor / ceil / round, the binary operators through the common type, abs, duration (* / %) rep on int16 and "
-                       "uint32 representations (the theorems cover signed 32..64-bit representations there)",
-                       "all operations on floating-point representations"]
+CORRESPONDENCE_ONLY = ["all operations on floating-point representations"]
 THEOREMS = {
     "cast": ["C12.GenProps.gen_cast_%s_%s_%s" % (sh, t, f) for sh in ("nd", "d", "n", "id")
              for t in ("i16", "i32", "i64", "u32") for f in ("i16", "i32", "i64", "u32")] + ["C12.Props.durationCast_eq", "C12.Props.durationCast_eq_builtin", "C12.Props.durationCast_eq_of_result",
              "C12.Props.durationCast_eq_narrow_target", "C12.Props.durationCast_exact_iff"],
     "tp_cast": ["C12.Props.tpCast_eq", "C12.Props.tp_casts_forward", "C12.Props.durationCast_eq_of_result"],
-    "floor": ["C12.Props.floor_eq", "C12.Props.floor_eq_of_result"], "tp_floor": ["C12.Props.tpRounding_eq"],
-    "ceil": ["C12.Props.ceil_eq", "C12.Props.ceil_eq_of_result"], "tp_ceil": ["C12.Props.tpRounding_eq"],
-    "round": ["C12.Props.round_eq"], "tp_round": ["C12.Props.tpRounding_eq"],
-    "add": ["C12.Props.add_exact"], "sub": ["C12.Props.sub_exact"],
-    "cmp": ["C12.Props.eq_eq", "C12.Props.lt_eq", "C12.Props.cmp_derived_eq"],
-    "tp_cmp": ["C12.Props.tpCmp_eq"],
-    "common": ["C12.Props.common_exact"], "ctype": ["C12.Props.commonPeriod_eq"],
+    "floor": ["C12.Props.floor_eq", "C12.Props.floor_eq_of_result", "C12.Props.floor_eq_builtin", "C12.Props.floor_eq_of_result_builtin"], "tp_floor": ["C12.Props.tpRounding_eq"],
+    "ceil": ["C12.Props.ceil_eq", "C12.Props.ceil_eq_of_result", "C12.Props.ceil_eq_builtin", "C12.Props.ceil_eq_of_result_builtin"], "tp_ceil": ["C12.Props.tpRounding_eq"],
+    "round": ["C12.Props.round_eq", "C12.Props.round_eq_builtin"], "tp_round": ["C12.Props.tpRounding_eq"],
+    "add": ["C12.Props.add_exact", "C12.Props.add_exact_builtin"], "sub": ["C12.Props.sub_exact", "C12.Props.sub_exact_builtin"],
+    "cmp": ["C12.Props.eq_eq", "C12.Props.lt_eq", "C12.Props.cmp_derived_eq", "C12.Props.eq_eq_builtin", "C12.Props.lt_eq_builtin",
+            "C12.Props.cmp_derived_eq_builtin"],
+    "tp_cmp": ["C12.Props.tpCmp_eq", "C12.Props.tpCmp_eq_builtin"],
+    "common": ["C12.Props.common_exact", "C12.Props.common_exact_builtin"], "ctype": ["C12.Props.commonPeriod_eq"],
     "conv": ["C12.Props.common_exact", "C12.Props.convert_exact", "C12.Props.convert_exact_builtin"],
     "tp_conv": ["C12.Props.tpConvert_exact"], "pos": ["C12.Props.pos_eq"],
-    "abs": ["C12.Props.abs_eq"], "neg": ["C12.Props.neg_eq", "C12.Props.assign_builtin"],
+    "abs": ["C12.Props.abs_eq", "C12.Props.abs_eq_builtin"], "neg": ["C12.Props.neg_eq", "C12.Props.assign_builtin"],
     "adda": ["C12.Props.addAssign_eq", "C12.Props.assign_builtin"], "tp_adda": ["C12.Props.tpAssign_eq"],
     "inc": ["C12.Props.addAssign_eq", "C12.Props.assign_builtin"],
     "suba": ["C12.Props.subAssign_eq", "C12.Props.assign_builtin"], "tp_suba": ["C12.Props.tpAssign_eq"],
     "dec": ["C12.Props.subAssign_eq", "C12.Props.assign_builtin"], "tp_inc": ["C12.Props.tpAssign_eq"],
-    "mula": ["C12.Props.mulAssign_eq", "C12.Props.assign_builtin"], "div": ["C12.Props.div_eq"], "mod": ["C12.Props.mod_exact"],
+    "mula": ["C12.Props.mulAssign_eq", "C12.Props.assign_builtin"], "div": ["C12.Props.div_eq", "C12.Props.div_eq_builtin"],
+    "mod": ["C12.Props.mod_exact", "C12.Props.mod_exact_builtin"],
     "diva": ["C12.Props.divAssign_eq"], "moda": ["C12.Props.modAssign_eq"], "modad": ["C12.Props.modAssign_eq"],
-    "mul": ["C12.Props.mulRep_exact"], "divr": ["C12.Props.divRep_exact"], "modr": ["C12.Props.modRep_exact"],
-    "tp_plus": ["C12.Props.tpPlus_exact"], "tp_minus": ["C12.Props.tpMinus_exact"], "tp_diff": ["C12.Props.tpDiff_exact"],
+    "mul": ["C12.Props.mulRep_exact", "C12.Props.mulRep_exact_builtin"], "divr": ["C12.Props.divRep_exact", "C12.Props.divRep_exact_builtin"],
+    "modr": ["C12.Props.modRep_exact", "C12.Props.modRep_exact_builtin"],
+    "tp_plus": ["C12.Props.tpPlus_exact", "C12.Props.tpPlus_exact_builtin"],
+    "tp_minus": ["C12.Props.tpMinus_exact", "C12.Props.tpMinus_exact_builtin", "C12.Props.tpMinus_ne_plus_neg_counterexample"],
+    "tp_diff": ["C12.Props.tpDiff_exact", "C12.Props.tpDiff_exact_builtin"],
+    "adda2": ["C12.Props.assign2_eq"], "moda2": ["C12.Props.assign2_eq"], "tp_adda2": ["C12.Props.assign2_eq"],
     "limits": ["C12.Props.limits_eq"], "named": ["C12.Props.named_eq"],
 }
 
